@@ -46,6 +46,7 @@ from . import c02_space as S
 LEVEL = "exploration"
 
 FILENAME = "<c02>"
+BASE_NAMES = ("mk", "XE", "XC", "ident", "q", "xs", "xt")  # session globals every program may read
 BUILTIN_NAMES = set(dir(builtins))
 
 # ----------------------------------------------------------------------------- instrumented objects
@@ -183,7 +184,7 @@ class World:
         return Obj(self, tag)
 
     def namespaces(self, sess):
-        g = {"mk": self.mk, "XE": self.XE, "XC": self.XC, "ident": _ident}
+        g = {"mk": self.mk, "XE": self.XE, "XC": self.XC, "ident": _ident, "q": self.new("n"), "xs": [self.new("n")], "xt": [(0, self.new("n"))]}
         for nm in sess["globals"]:
             g[nm] = self.new(nm)
         if sess["locals"]:
@@ -291,7 +292,7 @@ def _run(src, sess, how, slow_ok=False):
 
 
 def _names_of(sess):
-    return {"mk", "XE", "XC", "ident"} | set(sess["globals"]) | set(sess["locals"])
+    return set(BASE_NAMES) | set(sess["globals"]) | set(sess["locals"])
 
 
 def parse_ctx(src, sess):
@@ -1024,7 +1025,7 @@ def replay(rec):
     print("source  :")
     for ln in case["src"].splitlines():
         print("    " + ln)
-    print("session : globals", sess["globals"], "locals", sess["locals"], "(+ mk, XE, XC, ident)")
+    print("session : globals", sess["globals"], "locals", sess["locals"], "(+ mk, XE, XC, ident, q, xs, xt)")
     if case["clause"] == "py":
         r = eval_py_src(case["src"], sess)
     elif case["clause"] == "del":
